@@ -8,6 +8,7 @@ E2: every sequence of <= 2 set_state / set_chemostat calls over all entries of s
 full read-back (frame condition on the raw arrays), regeneration after editing a species, and the
 documented dict overrides of the defaults.
 """
+import copy
 import itertools
 from fractions import Fraction as F
 
@@ -19,13 +20,20 @@ from mc.ref import defaults as D
 
 core.setup_paths()
 from strengths.units import UnitValue, UnitArray  # noqa: E402
-from strengths.rdnetwork import Species, RDNetwork  # noqa: E402
+from strengths.rdnetwork import Species, RDNetwork, Reaction  # noqa: E402
 from strengths.rdgridspace import RDGridSpace  # noqa: E402
 from strengths.rdgraphspace import RDGraphSpace, RDGraphSpaceNode  # noqa: E402
 from strengths.rdsystem import RDSystem, rdsystem_from_dict  # noqa: E402
 
 TOL = 1e-12
 ENVS = ["cyt", "mem", "ext"]
+# environment label lists per count; the first of each contains "" - the label of RDNetwork's DEFAULT
+# environment list (environments=[""]) - which is an environment label like any other
+ENV_LISTS = {1: [[""], ["cyt"]], 2: [["", "in"], ["cyt", "mem"]], 3: [["in", "", "out"], ["cyt", "mem", "ext"]]}
+
+
+def _envs(x):
+    return ENVS[:x] if isinstance(x, int) else list(x)
 LABELS = ["Ab", "A", "bA"]      # one label is a prefix / substring of the others: weak label matching shows
 PRIMES = [2, 3, 5, 7, 11, 13, 17, 19, 23, 29, 31, 37, 41, 43, 47, 53, 59, 61, 67, 71, 73, 79, 83, 89, 97]
 DENS_UNITS = ["µM", "molecule/µm3", "nM", "nmol.cm-3", "mM"]
@@ -200,6 +208,9 @@ def getter_pass(case, net, system, out, stats, forms="all", rot=0, tag="default"
             idx = D.state_index(s, c, nc)
             if forms == "all":
                 pairs = [(sf, cf) for sf in species_forms(net, s) for cf in cell_forms(case, c)]
+            elif forms == "species":    # every species form, cell form rotated
+                cfs = cell_forms(case, c)
+                pairs = [(sf, cfs[(idx + rot + k) % len(cfs)]) for k, sf in enumerate(species_forms(net, s))]
             else:
                 pairs = [pick_form(net, case, s, c, idx + rot)]
             for (sfn, sfv), (cfn, cfv) in pairs:
@@ -254,6 +265,11 @@ def _case_access(case, out, stats):
     net, space, system = build(case)
     check_defaults(case, system, out, stats)
     getter_pass(case, net, system, out, stats, forms="all")
+    fill_pass(case, net, system, out, stats)
+
+
+def fill_pass(case, net, system, out, stats, forms="all"):
+    """Getters (all forms) on arrays with pairwise distinct amounts / binary-digit flag patterns."""
     n = len(case["species"]) * D.ncells(case)
     fill = [float(PRIMES[i % len(PRIMES)] + 100 * (i // len(PRIMES))) for i in range(n)]
     try:
@@ -280,7 +296,7 @@ def _case_access(case, out, stats):
         except Exception as e:
             out.append(("C13:chemostats-attribute:unexpected-exception", "%s: %s" % (type(e).__name__, e)))
             return
-        getter_pass(case, net, system, out, stats, forms="all", tag="distinct-entries")
+        getter_pass(case, net, system, out, stats, forms=forms, rot=b, tag="distinct-entries")
 
 
 def _addr(net, case, op):
@@ -475,7 +491,268 @@ def _case_dict(case, out, stats):
     getter_pass(case, system.network, system, out, stats, forms="all", tag="from_dict")
 
 
-_SUBS = {"dict": _case_dict, "default": _case_default, "access": _case_access, "ops": _case_ops, "regen": _case_regen,
+def write_pass(case, net, system, out, stats):
+    """set_state / set_chemostat of every entry with the species given by label, index and object (cell
+    form rotated): exactly entry species*ncells + cell of the raw arrays changes."""
+    nsp, nc = len(case["species"]), D.ncells(case)
+    n = nsp * nc
+    scale = si.si_scale(D.USYS[case["sys_us"]], (0, 0, 1))
+    bad = set()
+    for idx in range(n):
+        s, c = divmod(idx, nc)
+        for k, (sfn, sfv) in enumerate(species_forms(net, s)):
+            cfs = cell_forms(case, c)
+            cfn, cfv = cfs[(idx + k) % len(cfs)]
+            vals0, units0, raw0 = raw_state(system)
+            chem0 = raw_chem(system)
+            if len(vals0) != n or len(chem0) != n:
+                return
+            v = 7001 + 10 * idx + k
+            newflag = 1 - chem0[idx]
+            stats["set_calls"] = stats.get("set_calls", 0) + 2
+            try:
+                system.set_state(sfv, cfv, v)
+                system.set_chemostat(sfv, cfv, newflag)
+            except Exception as e:
+                key = ("C13:set_state:%s:%s:unexpected-exception" % (sfn, cfn), "set of species %d by %s, cell %d by %s: %s: %s"
+                       % (s, sfn, c, cfn, type(e).__name__, e))
+                if key[0] not in bad:
+                    bad.add(key[0])
+                    out.append(key)
+                continue
+            vals1, units1, raw1 = raw_state(system)
+            chem1 = raw_chem(system)
+            key = None
+            if len(vals1) != n or len(chem1) != n:
+                key = ("C13:set_state:%s:%s:length-changed" % (sfn, cfn), "array lengths changed")
+            elif not rel_err(vals1[idx], F(v) * scale) <= TOL:
+                key = ("C13:set_state:%s:%s:addressed-entry" % (sfn, cfn),
+                       "set_state(species %d by %s, cell %d by %s, %d): state[%d*%d+%d] = %.17g molecules, written %.17g"
+                       % (s, sfn, c, cfn, v, s, nc, c, float(vals1[idx]), float(F(v) * scale)))
+            elif any(raw1[j] != raw0[j] for j in range(n) if j != idx) or units1 != units0:
+                j = [j for j in range(n) if j != idx and raw1[j] != raw0[j]]
+                key = ("C13:set_state:%s:%s:frame" % (sfn, cfn), "set_state(species %d by %s, cell %d by %s) changed entries %r"
+                       % (s, sfn, c, cfn, j))
+            elif chem1[idx] != newflag:
+                key = ("C13:set_chemostat:%s:%s:addressed-flag" % (sfn, cfn),
+                       "set_chemostat(species %d by %s, cell %d by %s, %d): chemostats[%d*%d+%d] = %r"
+                       % (s, sfn, c, cfn, newflag, s, nc, c, chem1[idx]))
+            elif any(chem1[j] != chem0[j] for j in range(n) if j != idx):
+                key = ("C13:set_chemostat:%s:%s:frame-flags" % (sfn, cfn), "set_chemostat(species %d by %s, cell %d by %s) changed other flags"
+                       % (s, sfn, c, cfn))
+            if key is not None and key[0] not in bad:
+                bad.add(key[0])
+                out.append(key)
+
+
+# ---- E2 on ONE network / system object: histories of documented mutations ------------------------------
+
+HIST_ENVS = ["in", "", "out"]
+HIST_SPACES = {
+    "grid": {"space": {"type": "grid", "w": 2, "h": 1, "d": 2, "env": [0, 1, 2, 1], "vol": ["str", 3, "fL"]}, "space_us": 2},
+    "grid2": {"space": {"type": "grid", "w": 1, "h": 3, "d": 1, "env": [2, 1, 0], "vol": 5}, "space_us": 1},
+    "graph": {"space": {"type": "graph", "nodes": [{"vol": 2, "env": 1, "us": 1}, {"vol": ["str", 7, "pL"], "env": 2, "us": 0},
+                                                   {"vol": 11, "env": 0, "us": 2}]}, "space_us": 0},
+}
+NEW_SPECIES = {"label": "Zz", "us": 2, "density": {"": 149, "in": ["str", 151, "nM"]}, "chstt": {"default": True, "": False}}
+HIST_OPS = ["perm:rot", "perm:swap01", "perm:rev", "insert-front", "append", "remove-first", "remove-last", "reactions",
+            "env:rotate", "env:rename", "density:first", "density:last", "chstt:first", "chstt:last",
+            "space:graph", "space:grid2", "regen-state", "regen-chem", "new-system", "copy-net", "copy-system"]
+
+
+def hist_base(start):
+    slots = Slots(DENS_UNITS)
+    species = [{"label": LABELS[i], "us": (1 + i) % 3, "density": dens_kind(KINDS[(i + 1) % 4], i, HIST_ENVS, slots),
+                "chstt": flag_kind(KINDS[(i + 2) % 4], i, HIST_ENVS)} for i in range(3)]
+    case = {"sub": "history", "envs": list(HIST_ENVS), "species": species, "net_us": 2, "sys_us": 1, "reaction": None}
+    case.update(copy.deepcopy(HIST_SPACES[start]))
+    return case
+
+
+def _snapshot(system):
+    return raw_state(system)[0], raw_chem(system)
+
+
+def hist_apply(op, model, live):
+    """Apply one documented mutation to the live objects and to the model (the plain description of the
+    CURRENT content)."""
+    net, system = live["net"], live["system"]
+    sp = list(net.species)
+    ms = model["species"]
+
+    def set_species(order_live, order_model):
+        # a reaction must not be left pointing at a species that disappears
+        if model["reaction"] and not set(model["reaction"]) <= {m["label"] for m in order_model}:
+            net.reactions = []
+            model["reaction"] = None
+        net.species = order_live
+        model["species"] = order_model
+    if op.startswith("perm:"):
+        n = len(sp)
+        perm = {"rot": list(range(1, n)) + [0], "swap01": ([1, 0] + list(range(2, n)))[:n] if n >= 2 else [0],
+                "rev": list(range(n - 1, -1, -1))}[op[5:]]
+        set_species([sp[i] for i in perm], [ms[i] for i in perm])
+    elif op in ("insert-front", "append"):
+        if any(m["label"] == NEW_SPECIES["label"] for m in ms):
+            return
+        new = Species(NEW_SPECIES["label"], density=mk_spec(NEW_SPECIES["density"]), chstt=mk_flag(NEW_SPECIES["chstt"]),
+                      units_system=mk_us(NEW_SPECIES["us"]))
+        nm = copy.deepcopy(NEW_SPECIES)
+        if op == "insert-front":
+            set_species([new] + sp, [nm] + ms)
+        else:
+            set_species(sp + [new], ms + [nm])
+    elif op in ("remove-first", "remove-last"):
+        if len(sp) < 2:
+            return
+        if op == "remove-first":
+            set_species(sp[1:], ms[1:])
+        else:
+            set_species(sp[:-1], ms[:-1])
+    elif op == "reactions":
+        if model["reaction"] or len(ms) < 2:
+            net.reactions = []
+            model["reaction"] = None
+        else:
+            a, b = ms[-2]["label"], ms[-1]["label"]
+            net.reactions = [Reaction("%s -> %s" % (a, b), kf=1, kr=2, label="r1")]
+            model["reaction"] = [a, b]
+    elif op == "env:rotate":
+        model["envs"] = model["envs"][1:] + model["envs"][:1]
+        net.environments = list(model["envs"])
+    elif op == "env:rename":
+        model["envs"] = [("x" if e == "" else ("" if e == "x" else e)) for e in model["envs"]]
+        net.environments = list(model["envs"])
+    elif op.startswith("density:") or op.startswith("chstt:"):
+        i = 0 if op.endswith(":first") else len(ms) - 1
+        if op.startswith("density:"):
+            spec = {"": 131, "default": ["str", 137, "µM"]} if i == 0 else 139
+            net.species[i].density = mk_spec(spec)
+            ms[i]["density"] = spec
+        else:
+            spec = {"": True, "out": True} if i == 0 else (not bool(ms[i]["chstt"]) if not isinstance(ms[i]["chstt"], dict) else True)
+            net.species[i].chstt = mk_flag(spec)
+            ms[i]["chstt"] = spec
+    elif op.startswith("space:"):
+        model.update(copy.deepcopy(HIST_SPACES[op[6:]]))
+        system.space = build_space(model)
+    elif op == "regen-state":
+        system.set_default_state()
+    elif op == "regen-chem":
+        system.set_default_chemostats()
+    elif op == "new-system":
+        live["system"] = RDSystem(net, system.space, units_system=mk_us(model["sys_us"]))
+    elif op in ("copy-net", "copy-system"):
+        live["frozen"].append((net, system, copy.deepcopy(model), _snapshot(system)))
+        if op == "copy-net":
+            live["net"] = net.copy()
+            live["system"] = RDSystem(live["net"], system.space, units_system=mk_us(model["sys_us"]))
+        else:
+            live["system"] = system.copy()
+            live["net"] = live["system"].network
+    else:
+        raise ValueError(op)
+
+
+def _short(key):
+    """Underlying key without the 'C13:' prefix and, for accessors, without the cell form."""
+    p = key.split(":")[1:]
+    if p and p[0] in ("get_state", "get_chemostat", "set_state", "set_chemostat") and len(p) >= 4:
+        p = [p[0], p[1], p[-1]]
+    return ":".join(p)
+
+
+def hist_sync(model, net, system, out, stats, site):
+    """Full read-back of a system whose arrays have just been (re)generated from the CURRENT content."""
+    sub = []
+    check_defaults(model, system, sub, stats, site="current")
+    getter_pass(model, net, system, sub, stats, forms="species", tag="current")
+    write_pass(model, net, system, sub, stats)
+    fill_pass(model, net, system, sub, stats, forms="species")
+    seen = set()
+    for k, w in sub:
+        kk = "C13:history:%s:%s" % (site, _short(k))
+        if kk not in seen:
+            seen.add(kk)
+            out.append((kk, w))
+
+
+def _case_history(case, out, stats):
+    """Only MINIMAL violating histories are reported: a violating history one of whose proper
+    sub-histories (order-preserving subsequences, the empty one included) also violates is dropped."""
+    mine = []
+    _history(case, mine, stats)
+    ops = list(case["ops"])
+    if mine and ops and not case.get("_sub"):
+        for r in range(len(ops)):
+            for idxs in itertools.combinations(range(len(ops)), r):
+                sub = dict(case)
+                sub["ops"] = [ops[i] for i in idxs]
+                sub["_sub"] = True
+                inner = []
+                try:
+                    _history(sub, inner, {})
+                except Exception as e:
+                    inner = [("x", str(e))]
+                if inner:
+                    stats["histories_not_minimal"] = stats.get("histories_not_minimal", 0) + 1
+                    return
+    out.extend(mine)
+
+
+def _history(case, out, stats):
+    ops = list(case["ops"])
+    model = hist_base(case["start"])
+    net, space, system = build(model)
+    live = {"net": net, "system": system, "frozen": []}
+    hname = ",".join(ops) if ops else "none"
+    for k, op in enumerate(ops):
+        try:
+            hist_apply(op, model, live)
+        except Exception as e:
+            out.append(("C13:history:%s:op-%d:unexpected-exception" % (hname, k + 1), "%s raised %s: %s" % (op, type(e).__name__, e)))
+            return
+    stats["history_ops"] = stats.get("history_ops", 0) + len(ops)
+    net, system = live["net"], live["system"]
+    # (A) a NEW system on the current network and space
+    try:
+        fresh_on_same = RDSystem(net, system.space, units_system=mk_us(model["sys_us"]))
+    except Exception as e:
+        out.append(("C13:history:%s:new-system:unexpected-exception" % hname, "%s: %s" % (type(e).__name__, e)))
+        return
+    hist_sync(model, net, fresh_on_same, out, stats, "%s:new-system" % hname)
+    # (B) the existing system after regenerating both defaults
+    try:
+        system.set_default_state()
+        system.set_default_chemostats()
+    except Exception as e:
+        out.append(("C13:history:%s:regenerate:unexpected-exception" % hname, "%s: %s" % (type(e).__name__, e)))
+        return
+    a = _snapshot(system)
+    hist_sync(model, net, system, out, stats, "%s:regenerate" % hname)
+    # (C) differential: a fresh network / space / system built from the current content
+    fnet, fspace, fsys = build(model)
+    b = _snapshot(fsys)
+    if len(a[0]) != len(b[0]) or any(not rel_err(x, y) <= TOL for x, y in zip(a[0], b[0])) or a[1] != b[1]:
+        out.append(("C13:history:%s:differs-from-fresh" % hname,
+                    "regenerated arrays %r / %r; a fresh system with the same content has %r / %r"
+                    % ([float(x) for x in a[0]], a[1], [float(x) for x in b[0]], b[1])))
+    # (D) objects that were copied from must be untouched by what happened to the copy
+    for fnet0, fsys0, fmodel, snap in live["frozen"]:
+        now = _snapshot(fsys0)
+        if now != snap:
+            out.append(("C13:history:%s:original-changed" % hname, "the arrays of the system that was copied from changed"))
+            continue
+        try:
+            fsys0.set_default_state()
+            fsys0.set_default_chemostats()
+        except Exception as e:
+            out.append(("C13:history:%s:original:unexpected-exception" % hname, "%s: %s" % (type(e).__name__, e)))
+            continue
+        hist_sync(fmodel, fnet0, fsys0, out, stats, "%s:original" % hname)
+
+
+_SUBS = {"history": _case_history, "dict": _case_dict, "default": _case_default, "access": _case_access, "ops": _case_ops, "regen": _case_regen,
          "override": _case_override}
 
 
@@ -523,10 +800,10 @@ class Slots:
         return [form, v, unit]
 
 
-def dict_shapes(nenv):
+def dict_shapes(envs):
     """Every dict over the keys env_0..env_{nenv-1}, 'default': each key absent / present with a 'zero'
     value / present with a 'non-zero' value (3^(nenv+1)), as [(key, 0|1)]; plus the two scalars."""
-    keys = ENVS[:nenv] + ["default"]
+    keys = _envs(envs) + ["default"]
     out = [("scalar", 0), ("scalar", 1)]
     for st in itertools.product((None, 0, 1), repeat=len(keys)):
         out.append(("dict", [(k, v) for k, v in zip(keys, st) if v is not None]))
@@ -550,8 +827,9 @@ def flag_from_shape(shape, rot=0):
 KINDS = ("scalar", "full", "partial+default", "partial")
 
 
-def dens_kind(kind, i, nenv, slots):
-    envs = ENVS[:nenv]
+def dens_kind(kind, i, envs, slots):
+    envs = _envs(envs)
+    nenv = len(envs)
     if kind == "scalar":
         return slots.next()
     if kind == "full":
@@ -563,8 +841,9 @@ def dens_kind(kind, i, nenv, slots):
     return {e: slots.next() for j, e in enumerate(envs) if j != (i + 1) % nenv}
 
 
-def flag_kind(kind, i, nenv):
-    envs = ENVS[:nenv]
+def flag_kind(kind, i, envs):
+    envs = _envs(envs)
+    nenv = len(envs)
     if kind == "scalar":
         return bool((i + 1) % 2)
     if kind == "full":
@@ -576,13 +855,14 @@ def flag_kind(kind, i, nenv):
     return {e: (True, 1)[j % 2] for j, e in enumerate(envs) if j != (i + 1) % nenv}
 
 
-def network_part(nenv, dkinds, ckinds, roles, form="mixed"):
+def network_part(envs, dkinds, ckinds, roles, form="mixed"):
+    envs = _envs(envs)
     slots = Slots(DENS_UNITS, form)
     species = []
     for i, (dk, ck) in enumerate(zip(dkinds, ckinds)):
         species.append({"label": LABELS[i], "us": (roles[0] + i) % 3,
-                        "density": dens_kind(dk, i, nenv, slots), "chstt": flag_kind(ck, i, nenv)})
-    return {"envs": ENVS[:nenv], "species": species, "net_us": roles[1], "sys_us": roles[4]}
+                        "density": dens_kind(dk, i, envs, slots), "chstt": flag_kind(ck, i, envs)})
+    return {"envs": envs, "species": species, "net_us": roles[1], "sys_us": roles[4]}
 
 
 def grid_space(w, h, d, envmap, roles, form="mixed", k=0):
@@ -654,27 +934,30 @@ def sp_shapes(tier):
     small spaces."""
     max_cells, max_nodes = (4, 3) if tier == "thorough" else (3, 2)
     seeds = []
+    nlists = 2 if tier == "thorough" else 1
     for nenv in (1, 2, 3):
-        shapes = dict_shapes(nenv)
-        for si_, sp in enumerate(small_spaces(nenv, max_cells, max_nodes)):
-            for j in range(len(shapes)):
-                seeds.append((nenv, si_, j))
+        nshapes = len(dict_shapes(nenv))
+        for li in range(nlists):
+            for si_, sp in enumerate(small_spaces(nenv, max_cells, max_nodes)):
+                for j in range(nshapes):
+                    seeds.append((nenv, li, si_, j))
     cache = {}
 
     def expand(seed):
-        nenv, si_, j = seed
-        if nenv not in cache:
-            cache[nenv] = (dict_shapes(nenv), small_spaces(nenv, max_cells, max_nodes))
-        shapes, spaces = cache[nenv]
+        nenv, li, si_, j = seed
+        envs = ENV_LISTS[nenv][li]
+        if (nenv, li) not in cache:
+            cache[(nenv, li)] = (dict_shapes(envs), small_spaces(nenv, max_cells, max_nodes))
+        shapes, spaces = cache[(nenv, li)]
         roles = GENERIC[(si_ + j) % 3]
         jc = (j * 7 + 5) % len(shapes)          # bijection (len is 11, 29, 83): every flag shape too
-        netp = {"envs": ENVS[:nenv], "net_us": roles[1], "sys_us": roles[4],
+        netp = {"envs": list(envs), "net_us": roles[1], "sys_us": roles[4],
                 "species": [{"label": "A", "us": roles[0], "density": dens_from_shape(shapes[j], Slots(DENS_UNITS, start=j)),
                              "chstt": flag_from_shape(shapes[jc], rot=j)}]}
         return merge_case("default", netp, space_part(spaces[si_], roles, k=si_), rot=j)
     name = ("shapes: 1 species, all %s density shapes x all flag shapes (absent / zero / non-zero per key, keys = environments + "
-            "'default', + scalars) for 1,2,3 environments x EVERY environment map of grids with <= %d cells and graphs with <= %d nodes"
-            % ("11/29/83", max_cells, max_nodes))
+            "'default', + scalars) for 1,2,3 environments (label lists with the blank label: [\"\"], [\"\",in], [in,\"\",out]%s) x EVERY environment map of grids with <= %d cells and graphs with <= %d nodes"
+            % ("11/29/83", "" if tier != "thorough" else "; and cyt,mem,ext", max_cells, max_nodes))
     return name, seeds, expand
 
 
@@ -683,7 +966,7 @@ def sp_layout(tier):
     every map."""
     seeds = []
     max_nodes = 4 if tier == "thorough" else 3
-    for nenv in (1, 2, 3):
+    for nenv in ((1, 2, 3) if tier == "thorough" else (1, 3)):
         spaces = []
         for (w, h, d) in GRIDS:
             for m in structured_maps(w, h, d, nenv):
@@ -702,12 +985,12 @@ def sp_layout(tier):
         nenv, dk, sp, si_ = seed
         roles = GENERIC[(si_ + sum(dk)) % 3]
         ck = [(k + 1 + i) % 4 for i, k in enumerate(dk)]
-        netp = network_part(nenv, [KINDS[k] for k in dk], [KINDS[k] for k in ck], roles)
+        netp = network_part(ENV_LISTS[nenv][(si_ + sum(dk)) % 2], [KINDS[k] for k in dk], [KINDS[k] for k in ck], roles)
         return merge_case("default", netp, space_part(sp, roles, k=si_), rot=si_)
     name = ("layout: 1-3 species, density kind per species in {scalar, full dict, partial+default, partial} (4^n%s; flag kinds "
-            "rotated), 1-3 environments x all 27 grids w,h,d<=3 with structured maps (stripes x/y/z, checker, linear cycle, "
+            "rotated), %s environments (label lists with / without the blank label alternately) x all 27 grids w,h,d<=3 with structured maps (stripes x/y/z, checker, linear cycle, "
             "one odd cell) + graphs of 1-%d nodes (distinct per-node volumes and units) with every environment map"
-            % ("" if tier == "thorough" else ", 16 of 64 for 3 species", max_nodes))
+            % ("" if tier == "thorough" else ", 16 of 64 for 3 species", "1-3" if tier == "thorough" else "1 and 3", max_nodes))
     return name, seeds, expand
 
 
@@ -724,7 +1007,7 @@ def sp_units(tier):
 
     def expand(seed):
         roles, form, shi = seed
-        netp = network_part(2, ["partial+default", "full"] if shi % 2 == 0 else ["scalar", "partial"],
+        netp = network_part(ENV_LISTS[2][sum(roles) % 2], ["partial+default", "full"] if shi % 2 == 0 else ["scalar", "partial"],
                             ["full", "partial+default"], roles, form)
         return merge_case("default", netp, space_part(shapes[shi], roles, form, k=shi), getters="all")
     name = ("units: unit systems {default, (dm,min,µmol), (cm,ms,nmol)} chosen independently for species (rotated per species), "
@@ -745,7 +1028,7 @@ def sp_access(tier):
     def expand(seed):
         nsp, sp = seed
         roles = GENERIC[nsp % 3]
-        netp = network_part(2, [KINDS[(i + 1) % 4] for i in range(nsp)], [KINDS[(i + 2) % 4] for i in range(nsp)], roles)
+        netp = network_part(ENV_LISTS[2][nsp % 2], [KINDS[(i + 1) % 4] for i in range(nsp)], [KINDS[(i + 2) % 4] for i in range(nsp)], roles)
         return merge_case("access", netp, space_part(sp, roles, k=nsp))
     name = ("accessors: get_state / get_chemostat of EVERY (species, cell) by species label|index|object x cell linear index|tuple|"
             "list|object with x,y,z, on the default arrays and on arrays with pairwise distinct amounts / binary-digit flag "
@@ -766,8 +1049,13 @@ def small_systems(tier):
     return out
 
 
+def _small_envs(nsp, sp):
+    """Label list of a small system: alternately with and without the blank label."""
+    return ENV_LISTS[2][(nsp + len(sp[2])) % 2]
+
+
 def _small_case(sub, nsp, sp, roles, **extra):
-    netp = network_part(2, [KINDS[(i + 2) % 4] for i in range(nsp)], [KINDS[(i + 3) % 4] for i in range(nsp)], roles)
+    netp = network_part(_small_envs(nsp, sp), [KINDS[(i + 2) % 4] for i in range(nsp)], [KINDS[(i + 3) % 4] for i in range(nsp)], roles)
     return merge_case(sub, netp, space_part(sp, roles, k=nsp), **extra)
 
 
@@ -787,11 +1075,12 @@ def sp_set1(tier):
     """S5: one set call: every op kind x every entry x every address form x (system units x network units)."""
     systems = small_systems(tier)
     seeds = []
+    upairs = [(a, b) for a in range(3) for b in range(3)] if tier == "thorough" else [(0, 0), (0, 1), (1, 2), (2, 0), (1, 1)]
     for syi, (nsp, sp) in enumerate(systems):
         n = nsp * (sp[1][0] * sp[1][1] * sp[1][2] if sp[0] == "grid" else sp[1])
         nc = n // nsp
-        for sys_us in range(3):
-            for net_us in range(3):
+        for sys_us, net_us in upairs:
+            if True:
                 for e in range(n):
                     for (sf, cf) in _form_names(sp):
                         for vk in list(SET_VALUES) + ["flag:" + k for k in FLAG_VALUES]:
@@ -808,9 +1097,9 @@ def sp_set1(tier):
         else:
             op = {"op": "set_state", "species": s, "cell": c, "spform": sf, "cellform": cf, "vkind": vk, "value": SET_VALUES[vk]}
         return _small_case("ops", nsp, sp, roles, ops=[op], rot=e)
-    name = ("set x1: %d small systems x system units (3) x network units (3) x EVERY entry x every address form x "
+    name = ("set x1: %d small systems x (system units, network units = storage units) pairs (%d of 9) x EVERY entry x every address form x "
             "{6 set_state value kinds (bare int/float in the system's units, UnitValue in mol/nmol/molecule/fmol), "
-            "4 set_chemostat values}, then full read-back" % len(systems))
+            "4 set_chemostat values}, then full read-back" % (len(systems), len(upairs)))
     return name, seeds, expand
 
 
@@ -852,14 +1141,14 @@ def sp_set2(tier):
 EDITS = [
     {"name": "density-scalar", "density": 101},
     {"name": "density-text", "density": ["str", 103, "nM"]},
-    {"name": "density-dict+default", "density": {"cyt": 107, "default": ["str", 109, "µM"]}},
-    {"name": "density-partial", "density": {"mem": ["uv", 113, "molecule/µm3"]}},
+    {"name": "density-dict+default", "density": {"$0": 107, "default": ["str", 109, "µM"]}},
+    {"name": "density-partial", "density": {"$1": ["uv", 113, "molecule/µm3"]}},
     {"name": "density-zero", "density": 0},
     {"name": "chstt-true", "chstt": True},
     {"name": "chstt-false", "chstt": False},
-    {"name": "chstt-dict", "chstt": {"mem": True}},
-    {"name": "chstt-dict+default", "chstt": {"cyt": False, "default": True}},
-    {"name": "both", "density": {"default": 127}, "chstt": {"cyt": 1, "mem": 0}},
+    {"name": "chstt-dict", "chstt": {"$1": True}},
+    {"name": "chstt-dict+default", "chstt": {"$0": False, "default": True}},
+    {"name": "both", "density": {"default": 127}, "chstt": {"$0": 1, "$1": 0}},
 ]
 
 
@@ -876,7 +1165,9 @@ def sp_regen(tier):
     def expand(seed):
         syi, i, ei, dirty, ri = seed
         nsp, sp = systems[syi]
-        ed = dict(EDITS[ei])
+        envs = _small_envs(nsp, sp)
+        ed = {k: ({kk.replace("$0", envs[0]).replace("$1", envs[1]): vv for kk, vv in v.items()} if isinstance(v, dict) else v)
+              for k, v in EDITS[ei].items()}
         ed["species"] = i
         ed["dirty"] = dirty
         return _small_case("regen", nsp, sp, GENERIC[ri], edit=ed)
@@ -911,6 +1202,8 @@ def sp_dict(tier):
     nets = [(["partial+default", "full"], ["full", "partial+default"]), (["scalar", "partial"], ["partial", "scalar"]),
             (["full", "partial+default", "partial"], ["partial+default", "scalar", "full"])]
     seeds = []
+    if tier != "thorough":
+        shapes = shapes[:2]
     for roles4 in itertools.product(range(3), repeat=4):
         for form in ("bare", "str", "mixedjson"):
             for shi in range(len(shapes)):
@@ -920,19 +1213,50 @@ def sp_dict(tier):
     def expand(seed):
         (a, b, c, e), form, shi, ni = seed
         roles = (a, b, c, 0, e)
-        netp = network_part(2, nets[ni][0], nets[ni][1], roles, form)
+        netp = network_part(ENV_LISTS[2][(ni + shi) % 2], nets[ni][0], nets[ni][1], roles, form)
         return merge_case("dict", netp, space_part(shapes[shi], roles, form, k=shi))
     name = ("from_dict: systems built by rdsystem_from_dict from the documented dictionary form without state / chemostats, explicit "
             "units at every level: 3^4 unit-system roles (species, network, space, system) x value forms {bare, text, mixed} x "
-            "3 grids x 3 networks, all address forms")
+            "%d grids x 3 networks, all address forms" % len(shapes))
     return name, seeds, expand
 
 
 # sp_override (RDSystem(state=dict) / set_default_state(dict)) is NOT claimed: the statement speaks of systems built
 # without an explicit state and of regeneration; the override path is documented but broken on the pinned tree
 # (rdsystem.py: `.len()` / `is_array`), which is noted in DESIGN.md as seen-but-outside-the-statement.
-SPACE_BUILDERS = [sp_shapes, sp_layout, sp_units, sp_access, sp_set1, sp_set2, sp_regen, sp_dict]
-CHUNK = {0: 400, 1: 60, 2: 60, 3: 2, 4: 400, 5: 300, 6: 60, 7: 40, 8: 60}
+HIST_OPS3 = ["perm:rot", "perm:swap01", "insert-front", "remove-first", "env:rotate", "env:rename", "density:first",
+             "space:graph", "regen-state", "new-system", "copy-net", "copy-system"]
+
+
+def sp_history(tier):
+    seeds = []
+    for start in ("grid", "graph"):
+        seeds.append((start, ()))
+        for a in HIST_OPS:
+            seeds.append((start, (a,)))
+        for a in HIST_OPS:
+            for b in HIST_OPS:
+                seeds.append((start, (a, b)))
+        if tier == "thorough":
+            for h in itertools.product(HIST_OPS3, repeat=3):
+                seeds.append((start, h))
+
+    def expand(seed):
+        return {"sub": "history", "start": seed[0], "ops": list(seed[1]), "envs": HIST_ENVS, "species": hist_base(seed[0])["species"],
+                "space": HIST_SPACES[seed[0]]["space"], "space_us": HIST_SPACES[seed[0]]["space_us"], "net_us": 2, "sys_us": 1}
+    name = ("history: ONE network / system object (3 species, environments [in,\"\",out], start space grid 2x1x2 | graph of 3 nodes): "
+            "ALL sequences of <= 2 of %d documented mutations (net.species = permutation / insertion at front / append / removal, "
+            "net.reactions =, net.environments = reorder / rename, species.density / chstt edits, system.space =, set_default_state(), "
+            "set_default_chemostats(), new RDSystem on the same network, net.copy(), system.copy())%s; then on a NEW system and on the "
+            "regenerated one: defaults vs the reference of the CURRENT content, every getter form, set of every entry by label / "
+            "index / object, distinct-fill read-back, comparison with a fresh build, originals of copies untouched"
+            % (len(HIST_OPS), " + all sequences of 3 over %d of them" % len(HIST_OPS3) if tier == "thorough" else ""))
+    return name, seeds, expand
+
+
+SPACE_BUILDERS = [sp_shapes, sp_layout, sp_units, sp_access, sp_set1, sp_set2, sp_regen, sp_dict, sp_history]
+CHUNK = {"sp_shapes": 400, "sp_layout": 60, "sp_units": 60, "sp_access": 2, "sp_set1": 400, "sp_set2": 300, "sp_regen": 60,
+         "sp_override": 40, "sp_dict": 60, "sp_history": 12}
 
 _SPACES = None
 
@@ -941,6 +1265,8 @@ def _nontrivial(case, stats):
     sub = case["sub"]
     if sub == "ops":
         return stats.get("state_entries_changed", 0) + stats.get("flags_flipped", 0) > 0
+    if sub == "history":
+        return len(case["ops"]) > 0
     if sub in ("regen", "override", "access", "dict"):
         return True
     # default: something other than a scalar applied everywhere in default units
@@ -977,7 +1303,7 @@ def run(ctx):
     _SPACES = [b(ctx.tier) for b in SPACE_BUILDERS]
     jobs = []
     for i, (name, seeds, expand) in enumerate(_SPACES):
-        for lo, hi in pool.chunks(len(seeds), CHUNK[i]):
+        for lo, hi in pool.chunks(len(seeds), CHUNK[SPACE_BUILDERS[i].__name__]):
             jobs.append((i, lo, hi))
     res = pool.pmap(_work, jobs, timeout=600)
     per = {}
